@@ -104,4 +104,17 @@ Module RangeBridge (V : OrderedTypeFull').
   Ltac solve_mem :=
     intros; unfold memr; cbool; try reflexivity; exfalso; corder.
 
+  Lemma neginf_lt x sd : CO.lt (NegInf : cut) (C x sd).
+  Proof. apply CO.lt_iff. reflexivity. Qed.
+  Lemma lt_posinf x sd : CO.lt (C x sd) (PosInf : cut).
+  Proof. apply CO.lt_iff. reflexivity. Qed.
+  Lemma neginf_le c : CO.le (NegInf : cut) c.
+  Proof. apply CO.le_iff. destruct c; cbn; congruence. Qed.
+  Lemma le_posinf c : CO.le c (PosInf : cut).
+  Proof. apply CO.le_iff. destruct c; cbn; congruence. Qed.
+  Lemma not_lt_neginf c : ~ CO.lt c (NegInf : cut).
+  Proof. rewrite CO.lt_iff. destruct c; cbn; congruence. Qed.
+  Lemma not_posinf_lt c : ~ CO.lt (PosInf : cut) c.
+  Proof. rewrite CO.lt_iff. destruct c; cbn; congruence. Qed.
+
 End RangeBridge.
